@@ -24,3 +24,8 @@ func VerifRSCache(rs *ReedSolomonEncoder) [][]int {
 func VerifPoly(gf *GaloisField, coeff []int) *GFPoly {
 	return NewGFPoly(gf, append([]int(nil), coeff...))
 }
+
+// VerifBitListClone returns a deep copy with the same count, words and capacity.
+func VerifBitListClone(bl *BitList) *BitList {
+	return &BitList{count: bl.count, data: append([]int32(nil), bl.data...)}
+}
